@@ -276,7 +276,6 @@ func flatStmts(s *source, list []ast.Stmt, out *[]string) {
 	}
 }
 
-
 // ---------------------------------------------------------------------------------------------------------
 // width-aware translation of integer expressions (round 4).  The shared translator maps Go integers to Lean
 // `Int` and drops conversions, so `int(seconds)*1000+500` and `int(seconds*1000+500)` translate alike.  Here
@@ -1133,6 +1132,9 @@ func init() {
 			e.stringList("newFields", "fields of the RedisLock literal built by NewRedisLock", fields)
 		}
 
+		// round 5: forwarded argument lists of the delegating entry points, NewRedisLock's fields as functions
+		c19Forwarding(s, e)
+
 		for _, l := range []struct{ file, lean string }{{"core/stores/redis/lockscript.lua", "lockLua"}, {"core/stores/redis/delscript.lua", "delLua"}} {
 			raw, err := os.ReadFile(filepath.Join(*repo, l.file))
 			if err != nil {
@@ -1161,4 +1163,257 @@ func init() {
 			e.printf("]\n\n")
 		}
 	})
+}
+
+// C19 round 5: forwarded argument lists of the delegating entry points, as Lean FUNCTIONS polymorphic in the
+// argument type (so the Tie theorem "for all arguments" is parametricity, not a string comparison):
+//   Acquire() / Release()              -> which method of which receiver, with which context
+//   AcquireCtx / ReleaseCtx call site  -> rl.store.ScriptRunCtx(ctx, <script var>, <KEYS literal>, <ARGV literal>)
+//   Redis.ScriptRunCtx                 -> script.Run(ctx, conn, keys, args...)
+//   NewRedisLock                       -> the fields of the literal as functions of the parameters
+// An argument is: a parameter / receiver / known package variable (a Lean variable of the same name, `.` -> `_`),
+// `context.Background()` (`bg`), the n-th composite literal among the arguments (`lit n`), `x...` (`spread x`).
+
+type c19Poly struct {
+	s    *source
+	vars map[string]bool
+	nlit int
+	used map[string]bool
+}
+
+func c19Ident(n string) string { return strings.ReplaceAll(n, ".", "_") }
+
+func (p *c19Poly) arg(a ast.Expr) (string, error) {
+	switch x := a.(type) {
+	case *ast.Ident:
+		if p.vars[x.Name] {
+			p.used[x.Name] = true
+			return x.Name, nil
+		}
+		return "", fmt.Errorf("argument `%s` is not a parameter / receiver / known variable", x.Name)
+	case *ast.SelectorExpr:
+		txt := p.s.src(x)
+		if p.vars[txt] {
+			p.used[txt] = true
+			return c19Ident(txt), nil
+		}
+		return "", fmt.Errorf("argument `%s` is not a known field", txt)
+	case *ast.CallExpr:
+		if p.s.src(x) == "context.Background()" {
+			return "bg", nil
+		}
+		return "", fmt.Errorf("argument `%s`: call outside the subset", p.s.src(x))
+	case *ast.CompositeLit:
+		p.nlit++
+		return fmt.Sprintf("(lit %d)", p.nlit), nil
+	}
+	return "", fmt.Errorf("argument `%s` outside the subset", p.s.src(a))
+}
+
+// call renders `recv.M(args…)` as ("M", recv, [args…])
+func (p *c19Poly) call(c *ast.CallExpr) (string, error) {
+	sel, ok := c.Fun.(*ast.SelectorExpr)
+	if !ok {
+		return "", fmt.Errorf("`%s` is not a method call", p.s.src(c.Fun))
+	}
+	recv, err := p.arg(sel.X)
+	if err != nil {
+		return "", err
+	}
+	var args []string
+	for i, a := range c.Args {
+		t, err := p.arg(a)
+		if err != nil {
+			return "", err
+		}
+		if c.Ellipsis.IsValid() && i == len(c.Args)-1 {
+			t = "(spread " + t + ")"
+		}
+		args = append(args, t)
+	}
+	return fmt.Sprintf("(%s, %s, [%s])", leanString(sel.Sel.Name), recv, strings.Join(args, ", ")), nil
+}
+
+// c19FwdDef emits `def <lean> {α} (<vars> bg : α) (lit : Nat → α) (spread : α → α) : String × α × List α`
+func c19FwdDef(s *source, e *emitter, lean, doc string, vars []string, c *ast.CallExpr) {
+	sig := ""
+	for _, v := range vars {
+		sig += " " + c19Ident(v)
+	}
+	head := fmt.Sprintf("def %s {α : Type} (%s bg : α) (lit : Nat → α) (spread : α → α) : String × α × List α", lean, strings.TrimSpace(sig))
+	if c == nil {
+		e.errors = append(e.errors, lean+": call not found")
+		e.printf("/-- MISSING -/\n%s := (\"MISSING\", bg, [])\n\n", head)
+		return
+	}
+	vm := map[string]bool{}
+	for _, v := range vars {
+		vm[v] = true
+	}
+	p := &c19Poly{s: s, vars: vm, used: map[string]bool{}}
+	term, err := p.call(c)
+	if err != nil {
+		e.errors = append(e.errors, lean+": "+err.Error())
+		term = "(\"MISSING\", bg, [])"
+	}
+	e.printf("/-- %s: `%s` as (method, receiver, arguments) -/\n%s := %s\n\n", doc, s.src(c), head, term)
+}
+
+// the single `return <call>` of a delegating wrapper (the body must be exactly that statement)
+func c19OnlyReturnCall(fd *ast.FuncDecl) *ast.CallExpr {
+	if fd == nil || fd.Body == nil || len(fd.Body.List) != 1 {
+		return nil
+	}
+	r, ok := fd.Body.List[0].(*ast.ReturnStmt)
+	if !ok || len(r.Results) != 1 {
+		return nil
+	}
+	c, _ := r.Results[0].(*ast.CallExpr)
+	return c
+}
+
+func c19FindCall(fd *ast.FuncDecl, method string) *ast.CallExpr {
+	var out *ast.CallExpr
+	n := 0
+	if fd == nil {
+		return nil
+	}
+	ast.Inspect(fd.Body, func(nd ast.Node) bool {
+		if c, ok := nd.(*ast.CallExpr); ok {
+			if sel, ok := c.Fun.(*ast.SelectorExpr); ok && sel.Sel.Name == method {
+				out = c
+				n++
+			}
+		}
+		return true
+	})
+	if n != 1 {
+		return nil
+	}
+	return out
+}
+
+func c19Forwarding(s *source, e *emitter) {
+	const f = "core/stores/redis/redislock.go"
+	const rf = "core/stores/redis/redis.go"
+	c19FwdDef(s, e, "acquireWrapperFwd", "Acquire()", []string{"rl"}, c19OnlyReturnCall(s.findFunc(f, "RedisLock.Acquire")))
+	c19FwdDef(s, e, "releaseWrapperFwd", "Release()", []string{"rl"}, c19OnlyReturnCall(s.findFunc(f, "RedisLock.Release")))
+	c19FwdDef(s, e, "acquireCallSite", "the script run of AcquireCtx", []string{"rl.store", "ctx", "lockScript", "delScript"},
+		c19FindCall(s.findFunc(f, "RedisLock.AcquireCtx"), "ScriptRunCtx"))
+	c19FwdDef(s, e, "releaseCallSite", "the script run of ReleaseCtx", []string{"rl.store", "ctx", "lockScript", "delScript"},
+		c19FindCall(s.findFunc(f, "RedisLock.ReleaseCtx"), "ScriptRunCtx"))
+	// Redis.ScriptRunCtx: parameters in declaration order, then the local `conn`
+	{
+		fd := s.findFunc(rf, "Redis.ScriptRunCtx")
+		var params []string
+		variadic := ""
+		if fd != nil {
+			for _, fl := range fd.Type.Params.List {
+				for _, nm := range fl.Names {
+					params = append(params, nm.Name)
+					if _, ok := fl.Type.(*ast.Ellipsis); ok {
+						variadic = nm.Name
+					}
+				}
+			}
+		}
+		e.stringList("scriptRunCtxParams", "parameters of Redis.ScriptRunCtx in order; the variadic one last with `...`", func() []string {
+			out := []string{}
+			for _, p := range params {
+				if p == variadic {
+					p += "..."
+				}
+				out = append(out, p)
+			}
+			return out
+		}())
+		var run *ast.CallExpr
+		if fd != nil {
+			run = c19FindCall(fd, "Run")
+		}
+		c19FwdDef(s, e, "scriptRunCtxFwd", "Redis.ScriptRunCtx", append(append([]string{}, params...), "conn"), run)
+		// where `conn` comes from and what is done with the *Cmd: the statements around the call, typed
+		body := []string{}
+		if fd != nil {
+			for _, st := range fd.Body.List {
+				switch x := st.(type) {
+				case *ast.AssignStmt:
+					body = append(body, "assign "+s.src(x))
+				case *ast.IfStmt:
+					body = append(body, "if "+s.src(x.Cond)+" "+strings.Join(strings.Fields(s.src(x.Body)), " "))
+				case *ast.ReturnStmt:
+					body = append(body, "return")
+					for _, r := range x.Results {
+						txt := s.src(r)
+						if run != nil {
+							txt = strings.Replace(txt, s.src(run), "<run>", 1)
+						}
+						body = append(body, "  "+txt)
+					}
+				default:
+					body = append(body, "other "+s.src(st))
+				}
+			}
+		}
+		e.stringList("scriptRunCtxBody", "statements of Redis.ScriptRunCtx with the script.Run call abbreviated `<run>`", body)
+	}
+	// init(): whatever it does must not reach any state of the lock (today: one expression statement whose value is dropped)
+	if fd := s.findFunc(f, "init"); fd == nil {
+		e.stringList("initBody", "redislock.go has no init()", []string{})
+	} else {
+		var body []string
+		flatStmts(s, fd.Body.List, &body)
+		e.stringList("initBody", "statements of redislock.go's `init`", body)
+	}
+	// NewRedisLock: the literal's fields as functions of the parameters
+	{
+		head := "def newLockFields {α : Type} (store key : α) (randn : Int → α) : List (String × α)"
+		fd := s.findFunc(f, "NewRedisLock")
+		var items []string
+		var err error
+		found := false
+		if fd != nil {
+			ast.Inspect(fd.Body, func(n ast.Node) bool {
+				cl, ok := n.(*ast.CompositeLit)
+				if !ok || s.src(cl.Type) != "RedisLock" || found {
+					return true
+				}
+				found = true
+				for _, el := range cl.Elts {
+					kv, ok := el.(*ast.KeyValueExpr)
+					if !ok {
+						err = fmt.Errorf("positional field `%s`", s.src(el))
+						return false
+					}
+					val := ""
+					switch v := kv.Value.(type) {
+					case *ast.Ident:
+						if v.Name == "store" || v.Name == "key" {
+							val = v.Name
+						}
+					case *ast.CallExpr:
+						if s.src(v.Fun) == "stringx.Randn" && len(v.Args) == 1 {
+							if cv, ok := c19ConstEval(s, f, v.Args[0]); ok {
+								val = "(randn " + cv.ExactString() + ")"
+							}
+						}
+					}
+					if val == "" {
+						err = fmt.Errorf("field value `%s` outside the subset", s.src(kv.Value))
+						return false
+					}
+					items = append(items, fmt.Sprintf("(%s, %s)", leanString(s.src(kv.Key)), val))
+				}
+				return false
+			})
+		}
+		if !found && err == nil {
+			err = fmt.Errorf("no RedisLock literal")
+		}
+		if err != nil {
+			e.errors = append(e.errors, "NewRedisLock: "+err.Error())
+			items = []string{"(\"MISSING\", store)"}
+		}
+		e.printf("/-- the fields NewRedisLock sets, as functions of its parameters (`randn n` = `stringx.Randn(n)`, the constant evaluated) -/\n%s := [%s]\n\n", head, strings.Join(items, ", "))
+	}
 }
